@@ -17,7 +17,7 @@ Kinds == {"linkfile", "layout", "rules", "keymat"}
 FieldsOf(k) ==
   CASE k = "linkfile" -> {"sig_keyid", "sig_value", "signatures", "type", "name", "paths", "digest", "command",
                           "byproducts", "environment", "filename"}
-    [] k = "layout"   -> {"expires", "keytable", "step_name", "threshold", "pubkeys", "rule", "inspect", "readme", "sigs"}
+    [] k = "layout"   -> {"expires", "keytable", "step_name", "threshold", "pubkeys", "rule", "inspect", "readme", "sigs", "links"}
     [] k = "rules"    -> {"item_paths", "ref_paths", "pattern", "prefix", "from"}
     [] k = "keymat"   -> {"form", "damage"}
 
@@ -48,6 +48,9 @@ ClassesOf(f) ==
     [] f = "inspect"     -> {"none", "empty_run", "missing_cmd", "weird_name"}
     [] f = "readme"      -> {"plain", "controls", "number"}
     [] f = "sigs"        -> {"owner", "none", "multibyte_keyid"}
+    \* what the link directory holds for the layout's steps: a valid link each, nothing, only links by a key the step
+    \* does not authorise, only links whose signature does not verify
+    [] f = "links"       -> {"present", "absent", "by_other_key", "bad_signature"}
     [] f = "item_paths"  -> {"plain", "dot_slash_both", "dotdot", "absolute", "empty", "nonascii", "trailing_slash"}
     [] f = "ref_paths"   -> {"plain", "dot_slash_both", "absolute", "missing_step"}
     [] f = "pattern"     -> {"plain", "bad_glob", "recursive_glob", "empty", "nonascii", "only_star"}
@@ -60,8 +63,21 @@ ClassesOf(f) ==
                              "empty_bitstring", "only_unused_octet", "nonzero_unused", "empty_oid", "empty_algid", "long_form_length",
                              "empty_octets", "nested_empty"}
 
-DefaultOf(f) == CHOOSE c \in ClassesOf(f) :
-  c \in {"ok", "one", "link", "plain", "list", "normal", "null", "none", "owner", "present", "spki_ed25519", "prefix8"}
+\* the usual class of every field, spelled out (a field may have several harmless-looking classes)
+DefaultOf(f) ==
+  CASE f \in {"sig_keyid", "sig_value", "digest", "expires", "keytable", "pubkeys", "rule"} -> "ok"
+    [] f \in {"signatures", "threshold"} -> "one"
+    [] f = "type" -> "link"
+    [] f \in {"name", "paths", "step_name", "readme", "item_paths", "ref_paths", "pattern"} -> "plain"
+    [] f = "command" -> "list"
+    [] f = "byproducts" -> "normal"
+    [] f = "environment" -> "null"
+    [] f = "filename" -> "prefix8"
+    [] f \in {"inspect", "prefix", "damage"} -> "none"
+    [] f = "sigs" -> "owner"
+    [] f \in {"links", "from"} -> "present"
+    [] f = "form" -> "spki_ed25519"
+ASSUME \A k \in Kinds : \A f \in FieldsOf(k) : DefaultOf(f) \in ClassesOf(f)
 
 EntryPointsOf(k) ==
   CASE k = "linkfile" -> {"parse_block", "parse_wrapper", "block_verify", "final_product_verification"}
